@@ -540,12 +540,18 @@ func (g *p2pRig) step() {
 			evs = append(evs, ev{"node-getheaders", c, nil, 6})
 		}
 	}
+	if r.Opt["race"] == "1" {
+		evs = append(evs, ev{"co-step", nil, nil, 40})
+	}
 	ws := make([]int, len(evs))
 	for i, e := range evs {
 		ws[i] = e.w
 	}
 	e := evs[t.Pick(ws, "event")]
 	switch e.kind {
+	case "co-step":
+		g.coStep()
+		return
 	case "deliver":
 		k := 0
 		if t.Chance(1, 4, "fragment") {
@@ -599,6 +605,51 @@ func (g *p2pRig) step() {
 	case "node-getheaders":
 		g.nodeAsksGetHeaders(e.c)
 	}
+	g.settle()
+}
+
+// coStep (race class only): several events are released together, without a quiescent point between them, so
+// that the race detector sees them as concurrent: API reads of the peer list, a peer completing its handshake
+// or disconnecting, headers deliveries on several connections. The detector's verdict is a happens-before
+// property of the events in the step, not of their physical overlap.
+func (g *p2pRig) coStep() {
+	r, t := g.r, g.t
+	r.Logf("co-step")
+	r.Probe("co-step")
+	done := make(chan struct{})
+	nreads := t.Range(1, 3, "co-reads")
+	go func() {
+		defer close(done)
+		for i := 0; i < nreads; i++ {
+			g.w.HTTP("GET", "/api/v1/network/peer", nil, nil)
+			g.w.HTTP("GET", "/api/v1/network/peer/count", nil, nil)
+			g.w.HTTP("GET", "/api/v1/chain/tip/longest", nil, nil)
+		}
+	}()
+	// a connection appears (its version message is delivered at once) ...
+	if t.Chance(2, 3, "co-connect") {
+		n := g.nodes[t.Draw(len(g.nodes), "co-node")]
+		c := g.connect(n)
+		c.nodeEnd.Deliver(0)
+		g.afterDeliver(c)
+	}
+	// ... while pending bytes of the others are delivered and one of them goes away
+	live := g.liveConns(func(c *nodeConn) bool { return !c.partitioned })
+	for _, c := range live {
+		if c.nodeEnd.PendingOut() > 0 {
+			c.nodeEnd.Deliver(0)
+			g.afterDeliver(c)
+		}
+	}
+	if len(live) > 0 && t.Chance(1, 2, "co-close") {
+		c := live[t.Draw(len(live), "co-close-idx")]
+		if c.node != g.honest {
+			_ = c.nodeEnd.Close()
+			c.closed = true
+		}
+	}
+	synctest.Wait()
+	<-done
 	g.settle()
 }
 
